@@ -18,6 +18,10 @@ THEOREM_MODULES = ["Yarel.Props.C18", "Yarel.Props.ModelLimits", "Yarel.Props.Sp
 REQUIRED_THEOREMS = ["for_calls_iter_once", "for_keeps_iterator_and_asks_next", "for_next_value_runs_body", "for_sentinel_ends_loop",
                      "for_body_end_asks_next_again", "break_leaves_no_state", "range_iter_spec", "vec_iter_index_based", "vec_mutation_never_panics", "chain_spec", "map_filter_collect_reduce_spec",
                      "for_loop_spec", "break_leaves_no_state", "loops_independent", "string_iter_spec", "tuple_iter_spec"]
+# the state the models abstract is all the state there is: the fields of the run-time structures, regenerated on every run, are the ones
+# the models were written against (Props/StateInventory)
+THEOREM_MODULES.append("Yarel.Props.StateInventory")
+REQUIRED_THEOREMS += ['state_of_sequences_and_iterators']
 LEVEL = "proof"
 ASSUMPTIONS = [
     "iterator model Yarel/Model/Iter.lean transcribes the *_iter_next natives and core.yl's Iter/MapIter/FilterIter (tie: request correspondence)",
